@@ -85,8 +85,11 @@ def pipeline_sweep(contract, tier, seed, skip=()):
                 break
             if r is None:
                 continue
+            failed = [n for n, ok in r if ok is False]
+            unevaluated = [n for n, ok in r if ok is None]
+            if len(unevaluated) == len(r):
+                continue  # nothing could be evaluated natively on this input: no coverage, not a run
             done += 1
-            failed = [n for n, ok in r if not ok]
             if failed:
                 witness = {"configuration": cfg.name, "failed": failed[:8], "random_seed": f"{seed}:{cfg.name}:{k}"}
                 break
